@@ -197,11 +197,17 @@ def _arg(rng, names):
 
 def _plain(x):
     """The list behind an {"iter": [...]} marker (for the model and the reference-side classification)."""
+    if isinstance(x, dict) and set(x) == {"lazy"}:
+        return list(x["lazy"])
     return list(x["iter"]) if isinstance(x, dict) and set(x) == {"iter"} else x
 
 
-def _live(x):
+def _live(x, c=None):
     """What is actually passed to the library."""
+    if isinstance(x, dict) and set(x) == {"lazy"}:
+        # a selection computed lazily from the circuit being edited: `c.remove(n for n in c if <condition>)`
+        sel = set(x["lazy"])
+        return (n for n in c if n in sel)
     if isinstance(x, dict) and set(x) == {"iter"}:
         return iter(list(x["iter"]))
     if isinstance(x, dict):
@@ -281,6 +287,8 @@ def gen_op(rng, model, w):
                 ns = [rng.choice(pins)]
         else:
             ns = [rng.choice(BASE_NAMES + ODD_NAMES)]
+        if len(ns) >= 1 and rng.random() < 0.12:
+            return ["remove", {"lazy": list(ns)}]
         return ["remove", _arg(rng, ns)]
     if k == "set_output":
         pool = list(model.nodes) or BASE_NAMES
@@ -510,7 +518,7 @@ def _apply(cg, c, op, children, bbtypes):
     if k == "disconnect":
         return c.disconnect(_live(op[1]), _live(op[2]))
     if k == "remove":
-        return c.remove(_live(op[1]))
+        return c.remove(_live(op[1], c))
     if k == "set_output":
         return c.set_output(_live(op[1]), op[2])
     if k == "add_blackbox":
